@@ -172,8 +172,11 @@ CHECKS = {
  "C06": ("proof", "Theorems C06_decode_encode, C06_kernel_reads_same (buffer re-allocation invariant, any ids per event), "
          "C06_bad_header_rejected / C06_good_chunks_accepted (any position in any chunk list), C06_flat_index_no_wrap / "
          "_injective (matrices with more than 2^32 cells), refuted variants for the pre-repair logic. Correspondence "
-         "X-binfmt: writer bytes, reader, five entry points, bad header at every position of 1..4 chunks.",
-         "5 C06", "Coq proof (codec round-trip, header decision) + byte-exact differential correspondence"),
+         "X-binfmt: writer bytes, reader, five entry points, bad header at every position of 1..4 chunks. Source-derived: "
+         "SRC_fmt_constants_are_model / _to_bytes_is_model / _python_roundtrip / _kernel_reads_what_python_writes (10 theorems) "
+         "about MAGIC_NUMBER, CURRENT_VERSION, to_bytes, to_integer and the error codes as read from the current text of "
+         "preprocess.py, ndl_parallel.pyx and error_codes.pxd, re-checked on every run.",
+         "5 C06", "Coq proof (codec round-trip, header decision; source-derived theorems re-checked against the constants and word helpers translated from the current source) + byte-exact differential correspondence"),
 }
 
 
